@@ -37,7 +37,8 @@ def bounds(tier):
                           "index array into a larger matrix with decoy rows",
                           "G(4,3,zero) and WO(4) with all weights scaled by 1e-25, 1e-7, 1e25"],
          "features": ["P(4, {0,1,2}^2) x L(4) x %s" % QUICK_METRICS,
-                      "P(5, {0..3}) x L(5) x ['log_squared_euclidean']"]}
+                      "P(5, {0..3}) x L(5) x ['log_squared_euclidean']",
+                      "P(7, {0..3}) x 2 labelings x ['euclidean']"]}
     if tier == "thorough":
         b["pre_computed"] += ["G(5,3,zero) x L(5)", "G(6,2) x L(6)"]
         b["features"] = ["P(4, {0,1,2}^2) x L(4) x %s" % THOROUGH_METRICS,
@@ -73,7 +74,12 @@ def plan(tier, seed):
     for mt in metrics5:
         for a, b in E.chunks(E.n_sequences(4, 5), 128):
             shards.append(("feat", "1d", 5, mt, a, b))
+    # seven samples (a heap of three full levels): every sequence over {0..3}, two labelings
+    for a, b in E.chunks(E.n_sequences(4, 7), 1024):
+        shards.append(("feat7", 7, "euclidean", a, b))
     if tier == "thorough":
+        for a, b in E.chunks(E.n_sequences(4, 8), 2048):
+            shards.append(("feat7", 8, "euclidean", a, b))
         for a, b in E.chunks(E.n_graphs(5, 3), 400):
             shards.append(("g", 5, 3, True, a, b))
         for a, b in E.chunks(E.n_graphs(6, 2), 200):
@@ -130,6 +136,15 @@ def programs(shard, seed):
             for lab in labs:
                 yield {"model": "SupervisedOPF", "mode": "pre", "W": W,
                        "labels": list(E.rename_classes(lab, seed))}
+    elif kind == "feat7":
+        _, n, metric, a, b = shard
+        pts = E.lattice("1d", seed)
+        for si in range(a, b):
+            seq = E.sequence_at(len(pts), n, si)
+            X = [list(pts[i]) for i in seq]
+            for lab in ([i % 2 for i in range(n)], [0 if i < n // 2 else 1 for i in range(n)]):
+                yield {"model": "SupervisedOPF", "mode": "features", "X": X, "metric": metric,
+                       "labels": list(E.rename_classes(tuple(lab), seed))}
     elif kind == "ge":
         _, n, m, zero, a, b = shard
         table = E.value_table(seed, m, zero=zero)
@@ -246,7 +261,7 @@ def run(shard, seed):
             res.sample(prog, 1)
         k += 1
         if v:
-            prev = _PREV.get(_key(prog))
+            prev = _PREV.get(_key(prog)) if _key(prog) is not None else None
             if prev is not None and "previous" not in v["program"]:
                 v["program"] = dict(v["program"], previous=prev)
             res.violations.append(v)
